@@ -365,6 +365,8 @@ pub struct BatchSpec {
     pub deadline: Option<Instant>,
     pub keep_per_seed: bool,
     pub directed: usize,
+    /// signatures listed as known findings: they do not count towards the fail-fast limits
+    pub known: Vec<String>,
 }
 
 /// Runs directed scenarios and `runs` seeded scenarios (seed = base + i). Seeds are handed out in
@@ -374,6 +376,11 @@ pub fn run_batch(spec: &BatchSpec) -> Agg {
     let next = Arc::new(AtomicU64::new(0));
     let total = Arc::new(Mutex::new(Agg { keep_per_seed: spec.keep_per_seed, ..Default::default() }));
     let directed_next = Arc::new(AtomicUsize::new(0));
+    // fail fast: a tree that hangs or crashes workers over and over, or fails thousands of
+    // scenarios, needs no further sampling to be reported
+    let slow_hits = Arc::new(AtomicUsize::new(0));
+    let unknown_hits = Arc::new(AtomicUsize::new(0));
+    let known = Arc::new(spec.known.clone());
     let mut handles = vec![];
     for _ in 0..spec.workers.max(1) {
         let next = next.clone();
@@ -386,15 +393,31 @@ pub fn run_batch(spec: &BatchSpec) -> Agg {
         let deadline = spec.deadline;
         let keep = spec.keep_per_seed;
         let n_directed = spec.directed;
+        let slow_hits = slow_hits.clone();
+        let unknown_hits = unknown_hits.clone();
+        let known = known.clone();
         handles.push(std::thread::spawn(move || {
+            let note = |r: &RunResult| {
+                if let Some(v) = &r.violation {
+                    if !known.contains(&v.sig) {
+                        unknown_hits.fetch_add(1, Ordering::Relaxed);
+                        if v.sig.contains("|watchdog") {
+                            slow_hits.fetch_add(1, Ordering::Relaxed);
+                        }
+                    }
+                }
+            };
+            let stop = || slow_hits.load(Ordering::Relaxed) >= 2 || unknown_hits.load(Ordering::Relaxed) >= 5000;
             let mut w = Worker::spawn(&prop, tier);
             let mut agg = Agg { keep_per_seed: keep, ..Default::default() };
             loop {
                 let d = directed_next.fetch_add(1, Ordering::Relaxed);
-                if d >= n_directed {
+                if d >= n_directed || stop() {
                     break;
                 }
-                agg.add(w.run_directed(d));
+                let r = w.run_directed(d);
+                note(&r);
+                agg.add(r);
             }
             loop {
                 if let Some(dl) = deadline {
@@ -403,10 +426,12 @@ pub fn run_batch(spec: &BatchSpec) -> Agg {
                     }
                 }
                 let i = next.fetch_add(1, Ordering::Relaxed);
-                if i >= runs {
+                if i >= runs || stop() {
                     break;
                 }
-                agg.add(w.run_seed(base.wrapping_add(i)));
+                let r = w.run_seed(base.wrapping_add(i));
+                note(&r);
+                agg.add(r);
             }
             total.lock().unwrap().merge(agg);
         }));
